@@ -232,6 +232,10 @@ def run(chk):
     chk.rule("R6w", "PostgresImpl.cast_compiled(strict=False) interpreted as a whole for every numeric (source, target) pair incl. width-less and Const types: builds an expression")
     chk.rule("R6", "type-level helper functions of the cast compilers are total over the int / float family that reaches them (interpreted from source)")
 
+    chk.rule("R8v", "SqliteImpl.fix_fn_types interpreted for min / max / horizontal_min / horizontal_max nodes over operands whose SQL type is INTEGER: a float-typed node is wrapped in CAST(.. AS REAL) (SQLite's MIN / MAX hand back the storage class of the winning argument, so Float -> String would print `3` for 3.0), an integer-typed node is not")
+
+    chk.rule("R9v", "SqliteImpl.compile_cast interpreted for Datetime -> String: the text is not produced through strftime's `%f` (engine knowledge: SS.SSS, millisecond resolution)")
+
     ce, func, accepted, sources, targets = accepted_by_interpretation(chk, m)
     exp, rows = documented_table(T)
     # what the documented table means for the universe: sources are looked up without const and without a string
@@ -364,6 +368,9 @@ def run(chk):
 
     # ---- R6 type-level helpers of the cast compilers, interpreted over the type family that reaches them
     _type_helpers(chk, m, valid)
+
+    # ---- R8v storage class of float-typed MIN / MAX on SQLite (what Float -> String prints)
+    _sqlite_real_fix(chk, m)
 
 
 def _type_helpers(chk, m, valid_pairs):
@@ -578,6 +585,80 @@ def _cast_compiled_total(chk, m, ints, floats):
         except (AnalysisError, SymbolicBranch, KeyError) as e:
             chk.undecided.append(f"R6w: {cname}.cast_compiled could not be interpreted ({str(e)[:140]})")
     chk.floor("R6w", "non-strict casts interpreted", n, 100)
+
+
+def _sqlite_real_fix(chk, m):
+    """R8v: SqliteImpl.fix_fn_types interpreted on stub function nodes; the compiled operands are stubs whose `.type` is an
+    INTEGER SQL type (not an instance of any SQLAlchemy float class), the declared type of the node is Float64 / Int64"""
+    from ..catalogue import DT, _ModuleNS
+    from ..interp import Obj, PyRaise, SymbolicBranch, Term, Var
+    from ..polsim import _OpsNS
+    from ..program import Program
+
+    try:
+        mod = chk.repo.mod("backend.sqlite")
+        prog = Program(chk.repo, m_types_env(m), primary="backend.sqlite")
+        env = prog.env_of(mod)
+        cls_ = env["SqliteImpl"]
+    except (AnalysisError, KeyError) as e:
+        chk.note(f"R8v: SqliteImpl not found ({str(e)[:100]})")
+        return
+    f = cls_.methods.get("fix_fn_types")
+    if f is None or f.owner is not cls_:
+        chk.note("R8v: SqliteImpl has no fix_fn_types of its own; the storage class of MIN / MAX is not decided here")
+        return
+    ops = _OpsNS()
+    env["ops"] = ops
+    n = 0
+    for opname in ("horizontal_min", "horizontal_max", "min", "max"):
+        for dt, want_real in ((DT("Float64"), True), (DT("Const", DT("Float64")), True), (DT("Int64"), False)):
+            fn = prog.new("tree.col_expr", "ColFn", op=getattr(ops, opname), args=[], context_kwargs={}, _dtype=dt, _ftype=None)
+            args = [_ModuleNS({"type": "sqltype:INTEGER"}), _ModuleNS({"type": "sqltype:INTEGER"})]
+            what = f"SqliteImpl.fix_fn_types({opname}: {dt!r}, INTEGER operands)"
+            try:
+                r = prog.call(f.bind(Obj(cls_)), [fn, Var("val")] + args)
+            except (AnalysisError, SymbolicBranch) as e:
+                chk.note(f"R8v: {what} not interpreted ({str(e)[:120]})")
+                continue
+            except PyRaise as p_:
+                chk.ob("R8v", mod, f.node, what, False, f"{what} raises {p_.name}: {p_.msg}")
+                continue
+            n += 1
+            casts = [x for x in (r.walk() if isinstance(r, Term) else []) if x.fn.split(".")[-1].lower() == "cast" and len(x.args) >= 2]
+            real = [x for x in casts if any(k in repr(x.args[1]) for k in ("Double", "Float", "REAL", "DOUBLE", "FLOAT", "Numeric"))]
+            inside = any(any(y == Var("val") for y in x.walk()) for x in real)
+            if want_real:
+                chk.ob("R8v", mod, f.node, what + " -> CAST(val AS REAL)", bool(real) and inside,
+                       f"{what} returns {str(r)[:160]}: a float-typed {opname} over integer-typed first operands keeps the INTEGER storage class of the "
+                       "winning argument on SQLite, so Float -> String prints `3` instead of the documented `3.0`")  # fmt: skip
+            else:
+                chk.ob("R8v", mod, f.node, what + " stays an integer", not real,
+                       f"{what} returns {str(r)[:160]}: an integer-typed {opname} is turned into a REAL, so Int -> String prints `3.0` instead of `3`")  # fmt: skip
+    chk.floor("R8v", "fix_fn_types scenarios interpreted", n, 8)
+
+    # R9v: Datetime -> String on SQLite must not go through strftime's `%f` (SS.SSS: millisecond resolution, rounds)
+    fc = cls_.methods.get("compile_cast")
+    if fc is None or fc.owner is not cls_:
+        chk.note("R9v: SqliteImpl has no compile_cast of its own")
+        return
+    from ..interp import Native
+
+    for s_ in (DT("Datetime"), DT("Const", DT("Datetime"))):
+        o = Obj(cls_)
+        o.attrs.update({"sqa_type": Native(lambda t: Var(f"sqltype:{t!r}"), "cls.sqa_type"), "nan": Native(lambda: Var("nan"), "cls.nan"), "inf": Native(lambda: Var("inf"), "cls.inf"),
+                        "compile_col_expr": Native(lambda e, sqa_col, **k: Var("operand"), "cls.compile_col_expr")})  # fmt: skip
+        val = prog.new("tree.col_expr", "Col", name="c", _ast=None, _uuid="u", _dtype=s_, _ftype=None)
+        cast = prog.new("tree.col_expr", "Cast", val=val, target_type=DT("String"), strict=True, _dtype=DT("String"), _ftype=None)
+        what = f"SqliteImpl.compile_cast({s_!r} -> String)"
+        try:
+            r = prog.call(fc.bind(o), [cast, {}])
+        except (AnalysisError, SymbolicBranch, PyRaise) as e:
+            chk.note(f"R9v: {what} not interpreted ({str(e)[:120]})")
+            continue
+        ms = [x for x in (r.walk() if isinstance(r, Term) else []) if x.fn.split(".")[-1].lower() == "strftime" and any(isinstance(a, str) and "%f" in a for a in x.args)]
+        chk.ob("R9v", mod, fc.node, what + " keeps microseconds", not ms,
+               f"{what} builds {str(r)[:160]}: SQLite's strftime `%f` prints SS.SSS (millisecond resolution, rounded), so the documented "
+               "YYYY-MM-DD HH:MM:SS.SSSSSS text loses or carries the digits below one millisecond")  # fmt: skip
 
 
 def m_types_env(m):
